@@ -316,7 +316,9 @@ func (w *World) enabled() []core.WCmd {
 			if in.idx > 0 {
 				add(15, core.Cmd{A: "restart", I: in.idx})
 			}
-		case stCrashed, stStopped, stRefused:
+		case stRefused:
+			add(8, core.Cmd{A: "restart", I: in.idx})
+		case stCrashed, stStopped:
 			add(40, core.Cmd{A: "restart", I: in.idx})
 		case stRunning:
 			anyLog = true
@@ -548,7 +550,7 @@ func (w *World) inst(i int) *Instance {
 	return w.insts[i]
 }
 
-func (w *World) doSubmit(in *Instance, it *Item, low bool, c core.Cmd) {
+func (w *World) doSubmit(in *Instance, it *Item, low bool, c core.Cmd) *Submission {
 	var restore func()
 	pend, lows := in.log.VerifPool()
 	if w.prof.NarrowEvict && !low && in.pool > 0 && pend >= in.pool && len(lows) > 1 {
@@ -569,6 +571,7 @@ func (w *World) doSubmit(in *Instance, it *Item, low bool, c core.Cmd) {
 		restore()
 	}
 	s.PoolLenAfter, s.LowAfter = poolInfo(in.log)
+	return s
 }
 
 // finishCrash kills the current incarnation of in. applied lists which of its
@@ -642,6 +645,14 @@ func (w *World) epilogue() {
 	}
 	fresh := w.freshItem()
 	var freshSub *Submission
+	freshTries := 0
+	// a load that was in flight when the faults stopped may still have seen
+	// them (clock behind the tree head); only loads started from here on count
+	epiInc := primary.inc + 1
+	if primary.state == stLoading {
+		w.finishCrash(primary, nil)
+		w.crashes--
+	}
 	restarts := 0
 	for iter := 0; ; iter++ {
 		synctest.Wait()
@@ -663,8 +674,11 @@ func (w *World) epilogue() {
 			w.orc.v("C03", "load-hung", "LoadLog neither returned nor issued an operation")
 			return
 		case stRefused:
-			w.orc.v("C03", "reload-failed", "restart with the same configuration failed after faults stopped: %v", primary.loadErr)
-			return
+			if primary.inc >= epiInc {
+				w.orc.v("C03", "reload-failed", "restart with the same configuration failed after faults stopped: %v", primary.loadErr)
+				return
+			}
+			fallthrough
 		case stCrashed, stStopped, stDown:
 			if restarts > 3 {
 				w.orc.v("C03", "restart-loop", "log keeps stopping after faults stopped: %v", primary.seqErr)
@@ -676,9 +690,16 @@ func (w *World) epilogue() {
 			continue
 		}
 		// running
-		if freshSub == nil {
-			freshSub = w.submit(primary, fresh, false, nil)
-			synctest.Wait()
+		if freshSub != nil && freshSub.Done && freshSub.Err != nil && freshSub.Inc == primary.inc &&
+			(errors.Is(freshSub.Err, ctlog.VerifErrPoolFull) || errors.Is(freshSub.Err, ctlog.VerifErrEvicted)) && freshTries < 50 {
+			// the pool is still full of earlier submissions: come back after a round
+			freshSub = nil
+			time.Sleep(primary.untilNextTick())
+			continue
+		}
+		if freshSub == nil || (freshSub.Inc != primary.inc) {
+			freshTries++
+			freshSub = w.doSubmit(primary, fresh, false, core.Cmd{})
 			continue
 		}
 		if !freshSub.Done || w.unfinished(primary) > 0 {
